@@ -101,7 +101,7 @@ class _ArmInit(ArmC):
     FK(0) was evaluated: tool pose = home"""
     target = ARM + ':Arm.__init__'
     under_contract = (ARM + ':Arm.initialize',)
-    prop = ('C05', 'C14')
+    prop = ('C05', 'C14', 'C06')     # the body-screw clause is what jacobianBody (C06) relies on
 
     def run(self, g, fn, args, kwargs):
         fx = ArmFixture(g, self.n, fixed_geometry=self.fixed_geometry)
